@@ -86,7 +86,8 @@ def threshold_proportional(W, p, copy=True):
     n = len(W)						# number of nodes
     np.fill_diagonal(W, 0)			# clear diagonal
 
-    if np.allclose(W, W.T):				# if symmetric matrix
+    if np.array_equal(W, W.T):			# if symmetric matrix (exactly: a tolerance test would
+                                        # treat nearly equal but different weights as one connection)
         W[np.tril_indices(n)] = 0		# ensure symmetry is preserved
         ud = 2						# halve number of removed links
     else:
